@@ -32,6 +32,7 @@ PROGRAMS = {
     "P4": ["cli_render"],
     "P5": ["build", "render", "edit", "where", "render"],  # reference runs only: rendering before an edit must not matter
     "P7": ["build", "edit", "render"],  # reference runs only: the read-only probes of P3 must not matter
+    "P8": ["build", "export"],  # client E only: Network.export (writes reactions, configuration and sources)
     "P6": ["build", "render_odeint", "render_pattern", "render"],  # reference runs only: another back-end / the pattern option in between must not matter
 }
 
@@ -168,6 +169,18 @@ def client_build(c, mat):
     if c == "G":
         # an element list of its own and nothing else (no marker list), like the bundled minimal example
         return Network(filelist=mat["G"], fileformats="kida", elements=["E", "H", "HE", "C", "O"])
+    if c == "E":
+        # an API-built ice network whose user measured another binding energy for #CO and says so on the species
+        ra = [
+            Reaction(["CO"], ["#CO"], -1.0, -1.0, 1.0, 0.0, 0.0, ReactionType.GRAIN_FREEZE),
+            Reaction(["#CO"], ["CO"], -1.0, -1.0, 1.0, 0.0, 0.0, ReactionType.GRAIN_DESORB_THERMAL),
+            Reaction(["H", "H"], ["H2"], 10.0, 41000.0, 1e-17, 0.5, 0.0, ReactionType.GAS_TWOBODY),
+        ]
+        for r_ in ra:
+            for s_ in r_.reactants + r_.products:
+                if s_.name == "#CO":
+                    s_.binding_energy = 2000.0
+        return Network(ra, grain_model="hh93")
     if c == "F":
         return Network(
             [
@@ -303,11 +316,15 @@ def run_schedule(arg):
                         obs.append((c, "odeint", do_render(c, nets[ci], work, ("odeint", "rosenbrock4", "cpu"))))
                     elif stepname == "render_pattern":
                         obs.append((c, "sparse+pattern", do_render(c, nets[ci], work, ("cvode", "sparse", "cpu"), True)))
+                    elif stepname == "export":
+                        gl.add(globals_snapshot())
+                        nets[ci].export("proj", prefix=work / f"export{ci}", overwrite=True) if (work / f"export{ci}").mkdir(parents=True, exist_ok=True) is None else None
+                        obs.append((c, "export", tree_hash(work / f"export{ci}" / "proj")[0]))
                     elif stepname == "cli_render":
                         gl.add(globals_snapshot())
                         obs.append((c, "cli", do_cli_render(c, mat, work)))
                 except Exception as e:
-                    obs.append((c, "cli" if stepname == "cli_render" else "edited" if (edited or stepname == "edit") else "plain", f"EXC@{stepname}:{type(e).__name__}:{str(e)[:120]}"))
+                    obs.append((c, "cli" if stepname == "cli_render" else "export" if stepname == "export" else "edited" if (edited or stepname == "edit") else "plain", f"EXC@{stepname}:{type(e).__name__}:{str(e)[:120]}"))
                     break
     finally:
         shutil.rmtree(work, ignore_errors=True)
@@ -325,7 +342,7 @@ def culprits(r, c, kind, h=""):
     """root-cause tag: which earlier client's global writes reached the victim"""
     progs = r["progs"]
     vi = next(i for i, p in enumerate(progs) if p[0] == c)
-    last = max(i for i, (ci, st) in enumerate(r["schedule"]) if ci == vi and st in ("render", "cli_render", "build"))
+    last = max(i for i, (ci, st) in enumerate(r["schedule"]) if ci == vi and st in ("render", "cli_render", "build", "export"))
     if h.startswith("EXC@"):
         # the victim raised at this step: only clients that ran before it can be the cause
         failed = h[4:].split(":", 1)[0]
@@ -380,6 +397,11 @@ def schedules(tier):
                 progs = [(c, p) for c, p in zip(cs, ps)]
                 for il in interleavings(seqs):
                     out.append((progs, il))
+    # client E exports its network (own binding energy on #CO) around every other client's plain program
+    for v in CLIENTS:
+        progs = [("E", "P8"), (v, "P4" if v == "B" else "P1")]
+        for il in interleavings([PROGRAMS[p] for _, p in progs]):
+            out.append((progs, il))
     return out
 
 
@@ -427,6 +449,7 @@ def run(ctx):
             ref_scheds.append(([(c, "P5")], [(0, "build"), (0, "render"), (0, "edit"), (0, "where"), (0, "render")]))
             ref_scheds.append(([(c, "P6")], [(0, "build"), (0, "render_odeint"), (0, "render_pattern"), (0, "render")]))
             ref_scheds.append(([(c, "P7")], [(0, "build"), (0, "edit"), (0, "render")]))
+    ref_scheds.append(([("E", "P8")], [(0, "build"), (0, "export")]))
     ref = {}
     nexec = 0
     for s in seeds:
@@ -468,7 +491,7 @@ def run(ctx):
         "scheduling points are public API call boundaries (the library is single-threaded); every schedule runs in a fresh process forked from a parent that never touched a naunet global",
         "hash = sha256 over include/ src/ python/ with the project name masked (the only embedded date lives in the top-level CMakeLists.txt, outside the hashed trees)",
         "reference hash of a client = rendering it alone in fresh processes under several PYTHONHASHSEED values, twice in a row; these must agree among themselves",
-        "clients: A KIDA/default lists with four cooling processes; B UCLCHEM project through RenderCommand (upper-case elements, replacement table, binding energy and yield of #CO); C Leeds with custom element lists and prefix G; D KROME with its own @format/@var/@common; K a second KROME file relying on the default column layout with another @common; F API-built ice network reading #CO's binding energy; G KIDA file with an upper-case element list only (no marker list, no replacement table), whose edit step first reads a second file into the network",
+        "clients: A KIDA/default lists with four cooling processes; B UCLCHEM project through RenderCommand (upper-case elements, replacement table, binding energy and yield of #CO); C Leeds with custom element lists and prefix G; D KROME with its own @format/@var/@common; K a second KROME file relying on the default column layout with another @common; F API-built ice network reading #CO's binding energy; E API-built ice network whose #CO species carries a user-set binding energy (2000 K) and which is EXPORTED (Network.export: reactions, configuration, sources) around every other client's plain program; G KIDA file with an upper-case element list only (no marker list, no replacement table), whose edit step first reads a second file into the network",
     ]
     return {
         "states": nsched + nexec,
